@@ -296,6 +296,22 @@ def gen_case(seed, tier, i):
         bufs.append({'name': 'b%d' % b, 'path': None if pathless else 'edit%d.py' % b})
     editors = [Editor(driver.rng_for(seed, 'C08', tier, 'ed', i, b), gen_buffer_text(rng, list(w.mods), 'B%d' % b),
                       list(w.mods), w.files) for b in range(nbuf)]
+    opened = None
+    if rng.random() < 0.3:
+        # an existing project module is opened as a buffer (by absolute or by cwd-relative path)
+        # after another buffer that imports it has been analysed; from then on only the opened
+        # module is edited/queried (nobody may import an unsaved open buffer)
+        tops = sorted(m for m in w.mods if '.' not in m)
+        mname = rng.choice(tops)
+        nbuf = 2
+        bufs = [{'name': 'b0', 'path': 'edit0.py'},
+                {'name': 'b1', 'path': w.mods[mname]['path'], 'relpath': rng.random() < 0.6}]
+        ed0 = Editor(driver.rng_for(seed, 'C08', tier, 'ed', i, 0),
+                     ['import %s' % mname, '%s.func(1)' % mname, '%s.Klass().method' % mname, ''], list(w.mods), w.files)
+        ed1 = Editor(driver.rng_for(seed, 'C08', tier, 'ed', i, 1), w.files[w.mods[mname]['path']].split('\n')[:-1],
+                     list(w.mods), w.files)
+        editors = [ed0, ed1]
+        opened = 1
     knobs = {'cached_size_trigger': rng.choice([1, 2, 8, 600]),
              'call_signatures_validity': rng.choice([0, 3.0, 3.0, 10**6]),
              'fast_parser': rng.random() < 0.85}
@@ -308,7 +324,7 @@ def gen_case(seed, tier, i):
     steps = 0
     while steps < nsteps:
         r = rng.random()
-        b = rng.randrange(nbuf)
+        b = rng.randrange(nbuf) if opened is None else opened
         if r < 0.62:
             ops.append(_query(rng, bufs[b], editors[b].step()))
             steps += 1
@@ -330,7 +346,8 @@ def gen_case(seed, tier, i):
             # re-ask the unchanged text (same-lines branch of the diff parser)
             ops.append(_query(rng, bufs[b], editors[b].text))
             steps += 1
-    return {'id': 'c08-%d' % i, 'init': init, 'ops': ops, 'hashseed': rng.randint(0, 2), 'knobs': knobs}
+    return {'id': 'c08-%d' % i, 'init': init, 'ops': ops, 'hashseed': rng.randint(0, 2), 'knobs': knobs,
+            'cwd': 'w' if opened is not None else None}
 
 
 def _query(rng, buf, text, nprobes=None):
@@ -350,8 +367,11 @@ def _query(rng, buf, text, nprobes=None):
     buf['last'] = [p for p in probes if p['m'] in ('get_signatures', 'complete', 'infer', 'goto', 'help')][:8]
     # calls are re-asked most often
     buf['last'].sort(key=lambda p: p['m'] != 'get_signatures')
-    return {'op': 'query', 'code': text, 'path': buf['path'], 'project': {'path': '.'},
-            'probes': probes, 'tree': True, 'buf': buf['name']}
+    q = {'op': 'query', 'code': text, 'path': buf['path'], 'project': {'path': '.'},
+         'probes': probes, 'tree': True, 'buf': buf['name']}
+    if buf.get('relpath'):
+        q['relpath'] = True
+    return q
 
 
 # ---------------------------------------------------------------------------
@@ -360,6 +380,8 @@ def run_history(case):
     root = driver.new_root('c08')
     try:
         spec = {'init': case['init'], 'ops': case['ops'], 'inv': ['sentinel', 'host'], 'reset_diverged': True}
+        if case.get('cwd'):
+            spec['cwd'] = case['cwd']
         return driver.run_subject(spec, root, hashseed=case.get('hashseed', 0), timeout=115)
     finally:
         driver.rm_root(root)
@@ -370,6 +392,8 @@ def run_oracle(case, op, hashseed=None):
     try:
         q = dict(op, tree=False)
         spec = {'init': case['init'], 'ops': [q]}
+        if case.get('cwd'):
+            spec['cwd'] = case['cwd']
         return driver.run_subject(spec, root, hashseed=case.get('hashseed', 0) if hashseed is None else hashseed,
                                   timeout=100)
     finally:
